@@ -343,7 +343,7 @@ def sat_sub(eng, st, a, b):
 def run_c05(ctx, chk):
     chk.assume('A-DIM', 'A-ARG', 'A-PUB', 'A-TOOL')
     from .rules_c03 import param_fidelity
-    param_fidelity(ctx, chk)      # through the parser the numbers arrive as typed (R-CAP)
+    param_fidelity(ctx, chk, fsm=True, prop='C05', finals='ABCDEFGHfdae`')      # through the parser the numbers arrive as typed (R-CAP)
     sr = ctx.screen_run()
     eng = sr['engine']
     prog = ctx.prog
@@ -402,13 +402,15 @@ def run_c05(ctx, chk):
 def run_c13(ctx, chk):
     chk.assume('A-DIM', 'A-ARG', 'A-PUB', 'A-TOOL')
     from .rules_c03 import param_fidelity
-    param_fidelity(ctx, chk)      # through the parser the numbers arrive as typed (R-CAP)
+    param_fidelity(ctx, chk, fsm=True, prop='C13', finals='@P')      # through the parser the numbers arrive as typed (R-CAP)
     for m in ('insert_characters', 'delete_characters'):
         g.frame(ctx, chk, m, ['buffer', 'dirty'])
     n = g.r_zero1(ctx, chk, [('insert_characters', 0), ('delete_characters', 0)])
     chk.floor('zero/absent comparisons', n, 4)
     funcs = closures_of(ctx, {ep('insert_characters'), ep('delete_characters')})
-    ng = g.r_grid(ctx, chk, funcs)
+    # "discarded characters never reappear": ICH / DCH may rely on no cell living beyond the right edge
+    # of any row, which every grid mutator has to maintain - the grid-bounds rule over all of them
+    ng = g.r_grid(ctx, chk, funcs | closures_of(ctx, F(GRID_FUNCS)))
     chk.cover('grid key sites', ng.eps, ['insert_characters', 'delete_characters'])
     na, nb = g.r_absent(ctx, chk, funcs)
     chk.cover('branched lookups', nb.eps, ['insert_characters', 'delete_characters'])
@@ -516,7 +518,7 @@ def blank_provenance(ctx, chk, meths, want, rule='R-BLANK'):
 def run_c07(ctx, chk):
     chk.assume('A-DIM', 'A-ARG', 'A-PUB', 'A-TOOL')
     from .rules_c03 import param_fidelity
-    param_fidelity(ctx, chk)      # through the parser the numbers arrive as typed (R-CAP)
+    param_fidelity(ctx, chk, fsm=True, prop='C07', finals='JKX')      # through the parser the numbers arrive as typed (R-CAP)
     sr = ctx.screen_run()
     eng = sr['engine']
     prog = ctx.prog
@@ -777,7 +779,7 @@ def erase_region_ok(eng, st, meth, hv, row, col, x0, y0, cols, a0):
 def run_c06(ctx, chk):
     chk.assume('A-DIM', 'A-ARG', 'A-PUB', 'A-TOOL')
     from .rules_c03 import param_fidelity
-    param_fidelity(ctx, chk)      # through the parser the numbers arrive as typed (R-CAP)
+    param_fidelity(ctx, chk, fsm=True, prop='C06', finals='LMr')      # through the parser the numbers arrive as typed (R-CAP)
     sr = ctx.screen_run()
     eng = sr['engine']
     prog = ctx.prog
@@ -803,7 +805,7 @@ def run_c06(ctx, chk):
     panic_obligations(chk, 'C06', eng, only_funcs=funcs | {ep('set_margins')})
 
 
-def rekey(ctx, chk):
+def rekey(ctx, chk, only=None):
     """index / reverse_index: the scroll branch is taken iff the cursor is on the bottom / top margin, it
     leaves cursor.y alone, and rebuilds the row map by the documented re-keying; otherwise only the
     cursor moves"""
@@ -811,6 +813,8 @@ def rekey(ctx, chk):
     eng = sr['engine']
     prog = ctx.prog
     for meth, edge, off in (('index', 'bottom', 1), ('reverse_index', 'top', -1)):
+        if only is not None and meth not in only:
+            continue
         f = ep(meth)
         scope_f = closures_of(ctx, {f})
         bad = []
